@@ -1,12 +1,239 @@
 import Ruint.Model.DivUint
-/-! C03 property theorems (filled in below). -/
+import Ruint.Lemmas.Div.Uint
+/-!
+# C03 — division and remainder satisfy the Euclidean contract at the `Uint` surface
+
+Property theorems only, about the functions of `Ruint/Model/DivUint.lean` (which run the C14 model
+`Ruint.Div.div` on the two limb arrays) — the functions the driver `Drv/C03.lean` executes against the
+real `Uint` methods and operators. `Canon bits l`: `nlimbs bits` words with value `< 2^bits`.
+`none` = panic; the checked forms return `some none` for `None`.
+
+For every width `bits` (a variable, incl. 0 and non-multiples of 64) and all canonical operands:
+* non-zero divisor: `div_rem` / `/` / `%` / `wrapping_*` / `checked_*` return the unique `(q, r)` with
+  `n = q·d + r`, `0 ≤ r < d`, canonical, and never panic;
+* zero divisor: the panicking forms panic, the checked forms yield `None`;
+* `div_ceil = ⌈n/d⌉`; `checked_next_multiple_of` = the least multiple of `d` that is `≥ n` if it fits in
+  `bits` bits, else `None` (and `None` for `d = 0`); `next_multiple_of` = its `unwrap` (repaired by the
+  `fix:` commit; the pinned body `…unwrap(); todo!()` panicked on every input — `next_multiple_of_pinned_always_panics`).
+All full strength, no `_partial`.
+-/
 set_option autoImplicit false
 namespace Ruint.C03
 open Ruint.DivU
 
-/-- the pinned `next_multiple_of` (`…unwrap(); todo!()`) panics on every input: the DEFECT of DESIGN §9. -/
-theorem next_multiple_of_pinned_always_panics (bits : Nat) (a b : List Nat) :
+/-- **Euclidean contract of `div_rem`**: for a non-zero divisor, no panic, `q = ⌊n/d⌋`, `r = n mod d`,
+    both canonical. -/
+theorem div_rem_spec (bits : ℕ) (n d : List ℕ) (hn : Canon bits n) (hd : Canon bits d) (h : val d ≠ 0) :
+    ∃ q r, divRem bits n d = some (q, r) ∧ val q = val n / val d ∧ val r = val n % val d
+      ∧ Canon bits q ∧ Canon bits r :=
+  divRem_ok bits n d hn hd h
+
+/-- uniqueness form: the returned pair is the unique `(q, r)` with `n = q·d + r`, `0 ≤ r < d`. -/
+theorem div_rem_unique (bits : ℕ) (n d : List ℕ) (hn : Canon bits n) (hd : Canon bits d) (h : val d ≠ 0) :
+    ∃ q r, divRem bits n d = some (q, r) ∧ val n = val q * val d + val r ∧ val r < val d
+      ∧ ∀ q' r' : ℕ, val n = q' * val d + r' → r' < val d → q' = val q ∧ r' = val r := by
+  obtain ⟨q, r, e, hq, hr, _, _⟩ := divRem_ok bits n d hn hd h
+  refine ⟨q, r, e, ?_, ?_, ?_⟩
+  · rw [hq, hr, Nat.mul_comm]; exact (Nat.div_add_mod _ _).symm
+  · rw [hr]; exact Nat.mod_lt _ (Nat.pos_of_ne_zero h)
+  · intro q' r' h1 h2
+    obtain ⟨e1, e2⟩ := Ruint.Div.divmod_unique _ _ _ _ h1 h2
+    rw [hq, hr]; exact ⟨e1, e2⟩
+
+/-- `wrapping_div`, `/`, `/=` (all operand shapes) -/
+theorem wrapping_div_spec (bits : ℕ) (n d : List ℕ) (hn : Canon bits n) (hd : Canon bits d) (h : val d ≠ 0) :
+    ∃ q, wrappingDiv bits n d = some q ∧ val q = val n / val d ∧ Canon bits q := by
+  obtain ⟨q, r, e, hq, _, cq, _⟩ := divRem_ok bits n d hn hd h
+  exact ⟨q, by simp [wrappingDiv, e], hq, cq⟩
+
+/-- `wrapping_rem`, `%`, `%=` (all operand shapes) -/
+theorem wrapping_rem_spec (bits : ℕ) (n d : List ℕ) (hn : Canon bits n) (hd : Canon bits d) (h : val d ≠ 0) :
+    ∃ r, wrappingRem bits n d = some r ∧ val r = val n % val d ∧ Canon bits r := by
+  obtain ⟨q, r, e, _, hr, _, cr⟩ := divRem_ok bits n d hn hd h
+  exact ⟨r, by simp [wrappingRem, e], hr, cr⟩
+
+/-- `checked_div`: `None` exactly for a zero divisor, else `Some(⌊n/d⌋)`; never panics. -/
+theorem checked_div_spec (bits : ℕ) (n d : List ℕ) (hn : Canon bits n) (hd : Canon bits d) :
+    (val d = 0 → checkedDiv bits n d = some none)
+    ∧ (val d ≠ 0 → ∃ q, checkedDiv bits n d = some (some q) ∧ val q = val n / val d ∧ Canon bits q) := by
+  constructor
+  · intro h; simp [checkedDiv, (isZero_iff d).mpr h]
+  · intro h
+    obtain ⟨q, e, hq, cq⟩ := wrapping_div_spec bits n d hn hd h
+    exact ⟨q, by simp [checkedDiv, (isZero_false_iff d).mpr h, e], hq, cq⟩
+
+/-- `checked_rem`: `None` exactly for a zero divisor, else `Some(n mod d)`; never panics. -/
+theorem checked_rem_spec (bits : ℕ) (n d : List ℕ) (hn : Canon bits n) (hd : Canon bits d) :
+    (val d = 0 → checkedRem bits n d = some none)
+    ∧ (val d ≠ 0 → ∃ r, checkedRem bits n d = some (some r) ∧ val r = val n % val d ∧ Canon bits r) := by
+  constructor
+  · intro h; simp [checkedRem, (isZero_iff d).mpr h]
+  · intro h
+    obtain ⟨r, e, hr, cr⟩ := wrapping_rem_spec bits n d hn hd h
+    exact ⟨r, by simp [checkedRem, (isZero_false_iff d).mpr h, e], hr, cr⟩
+
+/-- **zero divisor panics in every panicking form** (`div_rem`, `/`, `%`, `wrapping_div`, `wrapping_rem`,
+    `div_ceil`, `next_multiple_of`) — at every width, including `BITS = 0` where every divisor is zero. -/
+theorem zero_divisor_panics (bits : ℕ) (n d : List ℕ) (hn : Canon bits n) (hd : Canon bits d) (h : val d = 0) :
+    divRem bits n d = none ∧ wrappingDiv bits n d = none ∧ wrappingRem bits n d = none
+    ∧ divCeil bits n d = none ∧ nextMultipleOf bits n d = none := by
+  have e := divRem_zero bits n d hn hd h
+  refine ⟨e, by simp [wrappingDiv, e], by simp [wrappingRem, e], by simp [divCeil, e], ?_⟩
+  simp [nextMultipleOf, checkedNextMultipleOf, (isZero_iff d).mpr h]
+
+/-- `div_ceil = ⌈n/d⌉` (written `(n + d − 1) / d` on ℕ), canonical, no panic for a non-zero divisor. -/
+theorem div_ceil_spec (bits : ℕ) (n d : List ℕ) (hn : Canon bits n) (hd : Canon bits d) (h : val d ≠ 0) :
+    ∃ c, divCeil bits n d = some c ∧ val c = (val n + val d - 1) / val d ∧ Canon bits c
+      ∧ (val c - 1) * val d < val n + (if val n = 0 then 1 else 0) ∧ val n ≤ val c * val d := by
+  obtain ⟨q, r, e, hq, hr, cq, cr⟩ := divRem_ok bits n d hn hd h
+  have hdpos : 0 < val d := Nat.pos_of_ne_zero h
+  obtain ⟨c0, c1⟩ := ceil_div (val n) (val d) hdpos
+  have hbits := bits_pos_of_val_ne_zero bits d hd h
+  have hdm := Nat.div_add_mod (val n) (val d)
+  have hml := Nat.mod_lt (val n) hdpos
+  have key : ∃ c, divCeil bits n d = some c ∧ val c = (val n + val d - 1) / val d ∧ Canon bits c := by
+    by_cases hr0 : val r = 0
+    · refine ⟨q, by simp [divCeil, e, (isZero_iff r).mpr hr0], ?_, cq⟩
+      rw [c0 (by rw [← hr]; exact hr0), hq]
+    · have hrne : val n % val d ≠ 0 := by rw [← hr]; exact hr0
+      have h1 : 1 % 2 ^ bits = 1 := Nat.mod_eq_of_lt (Nat.one_lt_two_pow (by omega))
+      obtain ⟨cc, cv⟩ := canon_ofVal bits (val q + 1 % 2 ^ bits)
+      refine ⟨_, by simp [divCeil, e, (isZero_false_iff r).mpr hr0], ?_, cc⟩
+      rw [cv, h1, c1 hrne, hq]
+      apply Nat.mod_eq_of_lt
+      -- q + 1 ≤ n: d ≥ 2 because the remainder is non-zero
+      have hd2 : 2 ≤ val d := by
+        by_contra hc
+        have : val d = 1 := by omega
+        rw [this, Nat.mod_one] at hrne; exact hrne rfl
+      have : val n / val d + 1 ≤ val n := by
+        have : 2 * (val n / val d) ≤ val d * (val n / val d) := Nat.mul_le_mul_right _ hd2
+        omega
+      exact lt_of_le_of_lt this hn.2.2
+  obtain ⟨c, k1, k2, k3⟩ := key
+  refine ⟨c, k1, k2, k3, ?_, ?_⟩
+  · rw [k2]
+    by_cases hr0 : val n % val d = 0
+    · rw [c0 hr0]
+      have : val n / val d * val d = val n := by rw [Nat.mul_comm]; omega
+      by_cases hn0 : val n = 0
+      · simp [hn0]
+      · simp only [hn0, if_false, Nat.add_zero]
+        have hq1 : 1 ≤ val n / val d := by
+          rcases Nat.eq_zero_or_pos (val n / val d) with hz | hz
+          · rw [hz] at this; omega
+          · exact hz
+        have : (val n / val d - 1) * val d + val d = val n / val d * val d := by
+          rw [← Nat.add_one_mul]; congr 1; omega
+        omega
+    · rw [c1 hr0, Nat.add_sub_cancel]
+      have : val n / val d * val d = val d * (val n / val d) := Nat.mul_comm _ _
+      split <;> omega
+  · rw [k2]
+    exact (least_multiple (val n) (val d) hdpos).2.1
+
+/-- **`checked_next_multiple_of`**: `None` for `d = 0`; otherwise, with `m` the least multiple of `d` that is
+    `≥ n` (`d ∣ m`, `n ≤ m`, minimal): `Some(m)` (canonical) when `m < 2^bits`, `None` when it does not fit.
+    Never panics. -/
+theorem checked_next_multiple_of_spec (bits : ℕ) (n d : List ℕ) (hn : Canon bits n) (hd : Canon bits d) :
+    (val d = 0 → checkedNextMultipleOf bits n d = some none)
+    ∧ (val d ≠ 0 → ∃ m, (val d ∣ m ∧ val n ≤ m ∧ ∀ m', val d ∣ m' → val n ≤ m' → m ≤ m')
+        ∧ (m < 2 ^ bits → ∃ c, checkedNextMultipleOf bits n d = some (some c) ∧ val c = m ∧ Canon bits c)
+        ∧ (2 ^ bits ≤ m → checkedNextMultipleOf bits n d = some none)) := by
+  constructor
+  · intro h; simp [checkedNextMultipleOf, (isZero_iff d).mpr h]
+  · intro h
+    have hdpos : 0 < val d := Nat.pos_of_ne_zero h
+    obtain ⟨q, r, e, hq, hr, cq, cr⟩ := divRem_ok bits n d hn hd h
+    obtain ⟨c0, c1⟩ := ceil_div (val n) (val d) hdpos
+    have hbits := bits_pos_of_val_ne_zero bits d hd h
+    have hdm := Nat.div_add_mod (val n) (val d)
+    have hz : isZero d = false := (isZero_false_iff d).mpr h
+    refine ⟨(val n + val d - 1) / val d * val d, least_multiple (val n) (val d) hdpos, ?_, ?_⟩
+    · intro hfit
+      by_cases hr0 : val r = 0
+      · refine ⟨n, by simp [checkedNextMultipleOf, hz, e, (isZero_iff r).mpr hr0], ?_, hn⟩
+        have : val n % val d = 0 := by rw [← hr]; exact hr0
+        rw [c0 this, Nat.mul_comm]; omega
+      · have hrne : val n % val d ≠ 0 := by rw [← hr]; exact hr0
+        have h1 : 1 % 2 ^ bits = 1 := Nat.mod_eq_of_lt (Nat.one_lt_two_pow (by omega))
+        rw [c1 hrne] at hfit ⊢
+        have hq1 : val q + 1 < 2 ^ bits := by
+          rw [hq]
+          have : val n / val d + 1 ≤ (val n / val d + 1) * val d := Nat.le_mul_of_pos_right _ hdpos
+          omega
+        obtain ⟨cc, cv⟩ := canon_ofVal bits ((val q + 1 % 2 ^ bits) * val d)
+        refine ⟨_, ?_, ?_, cc⟩
+        · simp only [checkedNextMultipleOf, hz, e, (isZero_false_iff r).mpr hr0, h1]
+          simp only [Bool.false_eq_true, if_false, hq1, not_true_eq_false]
+          rw [hq]; simp [hfit]
+        · rw [cv, h1, hq]; exact Nat.mod_eq_of_lt hfit
+    · intro hover
+      have hrne : val n % val d ≠ 0 := by
+        intro h0
+        rw [c0 h0] at hover
+        have : val n / val d * val d = val n := by rw [Nat.mul_comm]; omega
+        have := hn.2.2
+        omega
+      have hr0 : val r ≠ 0 := by rw [hr]; exact hrne
+      have h1 : 1 % 2 ^ bits = 1 := Nat.mod_eq_of_lt (Nat.one_lt_two_pow (by omega))
+      rw [c1 hrne] at hover
+      simp only [checkedNextMultipleOf, hz, e, (isZero_false_iff r).mpr hr0, h1]
+      simp only [Bool.false_eq_true, if_false]
+      rw [hq]
+      split
+      · rfl
+      · rw [if_neg (by omega)]
+
+/-- **`next_multiple_of`** (repaired): the least multiple of `d` that is `≥ n` when `d ≠ 0` and it fits;
+    panics exactly when `d = 0` or it does not fit (as documented). -/
+theorem next_multiple_of_spec (bits : ℕ) (n d : List ℕ) (hn : Canon bits n) (hd : Canon bits d) (h : val d ≠ 0) :
+    ∃ m, (val d ∣ m ∧ val n ≤ m ∧ ∀ m', val d ∣ m' → val n ≤ m' → m ≤ m')
+      ∧ (m < 2 ^ bits → ∃ c, nextMultipleOf bits n d = some c ∧ val c = m ∧ Canon bits c)
+      ∧ (2 ^ bits ≤ m → nextMultipleOf bits n d = none) := by
+  obtain ⟨m, hm, hfit, hover⟩ := (checked_next_multiple_of_spec bits n d hn hd).2 h
+  refine ⟨m, hm, ?_, ?_⟩
+  · intro hlt
+    obtain ⟨c, e, hv, hc⟩ := hfit hlt
+    exact ⟨c, by simp [nextMultipleOf, e], hv, hc⟩
+  · intro hge
+    simp [nextMultipleOf, hover hge]
+
+/-- DEFECT (DESIGN §9, fixed by the `fix:` commit): the pinned `next_multiple_of`
+    (`…unwrap(); todo!()`) panics on every input, contradicting the property for every `d ≠ 0` that fits. -/
+theorem next_multiple_of_pinned_always_panics (bits : ℕ) (a b : List ℕ) :
     nextMultipleOfPinned bits a b = none := by
   unfold nextMultipleOfPinned; split; rfl
+
+/-- **no non-zero divisor ever panics** in `div_rem`, `/`, `%`, `wrapping_*`, `checked_*`, `div_ceil`,
+    `checked_next_multiple_of`. -/
+theorem nonzero_divisor_never_panics (bits : ℕ) (n d : List ℕ) (hn : Canon bits n) (hd : Canon bits d)
+    (h : val d ≠ 0) :
+    divRem bits n d ≠ none ∧ wrappingDiv bits n d ≠ none ∧ wrappingRem bits n d ≠ none
+    ∧ checkedDiv bits n d ≠ none ∧ checkedRem bits n d ≠ none ∧ divCeil bits n d ≠ none
+    ∧ checkedNextMultipleOf bits n d ≠ none := by
+  obtain ⟨_, _, e1, _⟩ := div_rem_spec bits n d hn hd h
+  obtain ⟨_, e2, _⟩ := wrapping_div_spec bits n d hn hd h
+  obtain ⟨_, e3, _⟩ := wrapping_rem_spec bits n d hn hd h
+  obtain ⟨_, e4, _⟩ := (checked_div_spec bits n d hn hd).2 h
+  obtain ⟨_, e5, _⟩ := (checked_rem_spec bits n d hn hd).2 h
+  obtain ⟨_, e6, _⟩ := div_ceil_spec bits n d hn hd h
+  obtain ⟨m, _, f1, f2⟩ := (checked_next_multiple_of_spec bits n d hn hd).2 h
+  refine ⟨by simp [e1], by simp [e2], by simp [e3], by simp [e4], by simp [e5], by simp [e6], ?_⟩
+  rcases Nat.lt_or_ge m (2 ^ bits) with hlt | hge
+  · obtain ⟨_, e7, _⟩ := f1 hlt; simp [e7]
+  · simp [f2 hge]
+
+/-! ## non-vacuity -/
+example : Canon 64 [23] ∧ Canon 64 [8] := by
+  refine ⟨⟨rfl, ?_, by norm_num⟩, ⟨rfl, ?_, by norm_num⟩⟩ <;>
+  · intro x hx; simp at hx; rw [hx]; unfold W; norm_num
+example : divRem 64 [23] [8] = some ([2], [7]) := by decide +kernel
+example : checkedNextMultipleOf 64 [23] [8] = some (some [24]) := by decide +kernel
+example : nextMultipleOf 64 [23] [8] = some [24] := by decide +kernel
+example : checkedNextMultipleOf 64 [2 ^ 64 - 1] [2] = some none := by decide +kernel
+example : divCeil 128 [1, 1] [2, 0] = some [2 ^ 63 + 1, 0] := by decide +kernel
+example : divRem 0 [] [] = none := by decide +kernel
+example : checkedDiv 0 [] [] = some none := by decide +kernel
 
 end Ruint.C03
